@@ -76,19 +76,20 @@ type TermBank struct {
 	tab    map[string]*Term
 	nextID int
 	// declarations
-	consts     map[string]Sort     // declared constants
-	funcs      map[string]funcDecl // declared uninterpreted functions
-	sorts      map[Sort]bool       // declared uninterpreted sorts
-	dtypes     []dtypeDecl         // datatypes in dependency order
-	dtypeSet   map[Sort]bool
-	axioms     []namedAxiom // global axioms, tagged with the symbols that trigger inclusion
-	fresh      int
-	strLits    map[string]*Term // UF-mode string literals
-	useStrings bool             // SMT string theory instead of UF strings
-	axiomNames map[string]bool
-	symMemo    map[*Term]map[string]bool
-	noSyms     map[*Term]bool
-	strLitLen  map[*Term]int
+	consts          map[string]Sort     // declared constants
+	funcs           map[string]funcDecl // declared uninterpreted functions
+	sorts           map[Sort]bool       // declared uninterpreted sorts
+	dtypes          []dtypeDecl         // datatypes in dependency order
+	dtypeSet        map[Sort]bool
+	axioms          []namedAxiom // global axioms, tagged with the symbols that trigger inclusion
+	fresh           int
+	strLits         map[string]*Term // UF-mode string literals
+	useStrings      bool             // SMT string theory instead of UF strings
+	axiomNames      map[string]bool
+	symMemo         map[*Term]map[string]bool
+	noSyms          map[*Term]bool
+	dropQuantAxioms bool
+	strLitLen       map[*Term]int
 }
 
 type funcDecl struct {
@@ -785,6 +786,27 @@ func (tb *TermBank) Quant(q string, vars []*Term, body *Term) *Term {
 func (tb *TermBank) Forall(vars []*Term, body *Term) *Term { return tb.Quant("forall", vars, body) }
 func (tb *TermBank) Exists(vars []*Term, body *Term) *Term { return tb.Quant("exists", vars, body) }
 
+func termHasQuant(t *Term) bool {
+	seen := map[*Term]bool{}
+	var rec func(t *Term) bool
+	rec = func(t *Term) bool {
+		if seen[t] {
+			return false
+		}
+		seen[t] = true
+		if t.kind == kQuant {
+			return true
+		}
+		for _, a := range t.args {
+			if rec(a) {
+				return true
+			}
+		}
+		return false
+	}
+	return rec(t)
+}
+
 // Syms returns the uninterpreted symbols (constants and functions) occurring in t.
 func (tb *TermBank) Syms(t *Term) map[string]bool {
 	if tb.symMemo == nil {
@@ -1007,6 +1029,9 @@ func (tb *TermBank) Script(asserts []*Term, wantModel bool) string {
 			}
 			ok := true
 			if ax.trig != nil && used[ax.trig] == 0 {
+				ok = false
+			}
+			if tb.dropQuantAxioms && termHasQuant(ax.t) {
 				ok = false
 			}
 			for _, s := range ax.syms {
